@@ -10,6 +10,7 @@ Robustness sweeps of the rules against behaviour-preserving changes of *shape* (
   extract_stmt every simple statement of a method that mentions only self and module-level names is moved into a new method of its class
                (NOT always behaviour-preserving for this analysis: a call is a landing point for an asynchronous terminate - findings of
                the landing rules on such variants are true reports, everything else is a false alarm);
+  alias_recv   in every simple statement the receiver `self.x[.y]` of the first call is first bound to a local (`_al = self.x.y; _al.m()`);
   move_method  every undecorated method (not used by the class body itself) is moved to the end of its class.
 
 Neither changes what the program does, so every finding on such a variant is a false alarm of a rule that matched the
@@ -88,6 +89,19 @@ def main():
                     continue
                 if args.kind == 'insert_pass' and isinstance(st, (ast.FunctionDef, ast.ClassDef)):
                     continue
+                if args.kind == 'alias_recv':
+                    if not isinstance(st, (ast.Expr, ast.Assign, ast.Return, ast.AugAssign)):
+                        continue
+                    def _self_chain(v):
+                        ok = False
+                        while isinstance(v, ast.Attribute):
+                            v, ok = v.value, True
+                        return ok and isinstance(v, ast.Name) and v.id == 'self'
+                    if not any(isinstance(n, ast.Call) and isinstance(n.func, ast.Attribute) and _self_chain(n.func.value) for n in ast.walk(st)):
+                        continue
+                    # only the outermost statement of a nest is rewritten
+                    if any(isinstance(n, (ast.Lambda, ast.ListComp, ast.GeneratorExp, ast.DictComp, ast.SetComp)) for n in ast.walk(st)):
+                        continue
                 if args.kind == 'split_and' and not (isinstance(st, ast.If) and not st.orelse and isinstance(st.test, ast.BoolOp) and isinstance(st.test.op, ast.And)):
                     continue
                 if args.kind == 'merge_ifs' and not (isinstance(st, ast.If) and not st.orelse and len(st.body) == 1 and isinstance(st.body[0], ast.If) and not st.body[0].orelse):
